@@ -14,11 +14,12 @@ static struct hent h_log[VP_HORC_CAP]; static uint32_t h_n;
 static uint32_t dig_len(uint32_t alg) { ASSERT(alg == 1 || alg == 2, "hash oracle: only Md5 and Sha1 are modelled"); return alg == 1 ? 16 : 20; }
 static int vpl_h_same(const struct hent *e, const struct vhash *h) { if (e->alg != h->alg || e->len != h->len) return 0; uint8_t same = 1;
   for (uint32_t i = 0; i < HB_CAP; i++) { if (i >= h->len) break; same &= (uint8_t)(e->buf[i] == h->buf[i]); } return same; }
-static void orc_hash(const struct vhash *h, uint8_t *out) { uint32_t dl = dig_len(h->alg);
-  for (uint32_t i = 0; i < VP_HORC_CAP; i++) { if (i >= h_n) break; if (vpl_h_same(&h_log[i], h)) { for (uint32_t j = 0; j < 20; j++) out[j] = h_log[i].dig[j]; return; } }
-  ASSERT(h_n < VP_HORC_CAP, "hash oracle log full"); struct hent *e = &h_log[h_n]; h_n++; e->alg = h->alg; e->len = h->len;
-  for (uint32_t i = 0; i < HB_CAP; i++) e->buf[i] = h->buf[i];
-  for (uint32_t j = 0; j < 20; j++) { e->dig[j] = j < dl ? vp_u8() : 0; out[j] = e->dig[j]; } }
+/* every query is recorded in its own slot (the counter stays a constant); its digest is fresh unless an earlier query had the same input */
+static void orc_hash(const struct vhash *h, uint8_t *out) { uint32_t dl = dig_len(h->alg); uint32_t n = h_n; ASSERT(n < VP_HORC_CAP, "hash oracle log full");
+  uint8_t dig[20]; for (uint32_t j = 0; j < 20; j++) dig[j] = j < dl ? vp_u8() : 0;
+  for (uint32_t i = 0; i < VP_HORC_CAP; i++) { if (i < n) { if (vpl_h_same(&h_log[i], h)) { for (uint32_t j = 0; j < 20; j++) dig[j] = h_log[i].dig[j]; } } }
+  for (uint32_t i = 0; i < VP_HORC_CAP; i++) { if (i == n) { struct hent *e = &h_log[i]; e->alg = h->alg; e->len = h->len; for (uint32_t q = 0; q < HB_CAP; q++) e->buf[q] = h->buf[q]; for (uint32_t j = 0; j < 20; j++) e->dig[j] = dig[j]; } }
+  h_n = n + 1; for (uint32_t j = 0; j < 20; j++) out[j] = dig[j]; }
 static void vpl_h_add(struct vhash *h, QAD *d) { uint32_t n = d->f1; ASSERT(h->len + n <= HB_CAP, "hash oracle input capacity"); uint32_t off = h->len;
   for (uint32_t i = 0; i < XHINT(d) && i < QB_CAP; i++) { if (i >= n) break; h->buf[off + i] = XBYTES(d)[i]; } h->len = off + n; }
 #define VH(self) (*(struct vhash**)(self))
